@@ -11,7 +11,7 @@ class _RL(dict):
 UNIT_RLIMIT = _RL({"div_small": 80, "mul_redc": 80})      # unit -> --rlimit (Verus default is 10; 5x head-room over the measured maximum)
 UNIT_TIMEOUT = {"knuth": 1500, "addmul": 900, "mul_redc": 1200}     # unit -> seconds
 UNIT_EXPECT = {       # unit -> minimum number of verified functions on the unchanged tree (vacuity guard)
-    "core": 31, "add": 29, "kernels": 79, "addmul": 71, "addmul_n": 73, "mul": 51, "divd": 45, "div_small": 235, "knuth": 145, "mul_redc": 126, "basics": 22, "pow": 38, "divw": 54, "modular": 70, "spigot": 44, "gcd": 24, "forward": 57, "invring": 47, "bitlen": 70, "shifts": 131, "recip_table": 2, "gcdext": 67, "gcdw": 36, "bits": 78, "conv": 31, "lehmer": 38, "jebelean": 92, "logs": 27, "forward_shift": 81, "fmt_consts": 5,
+    "core": 31, "add": 29, "kernels": 79, "addmul": 71, "addmul_n": 73, "mul": 51, "divd": 45, "div_small": 235, "knuth": 145, "mul_redc": 126, "basics": 22, "pow": 38, "divw": 54, "modular": 70, "spigot": 44, "gcd": 24, "forward": 57, "invring": 47, "bitlen": 70, "shifts": 131, "recip_table": 2, "gcdext": 67, "gcdw": 36, "bits": 78, "conv": 44, "lehmer": 38, "jebelean": 92, "logs": 27, "forward_shift": 81, "fmt_consts": 5,
 }
 
 COMMON_TRUST = [
@@ -170,13 +170,13 @@ PROPS = {
         level_text="Kani proves, per width and for ALL values of the source type / all canonical Uint values, the exact Ok/Err classification, the payloads, and the wrapping/saturating forms of "
                    "every integer conversion entry point (13 primitive types in both directions, Uint-to-Uint for 9 width pairs, the limb-slice constructors for every length 0..LIMBS+2); "
                    "loops are closed by LIMBS, so each harness is complete for its width. Verus additionally proves, for ALL widths and all values, the two base cases every primitive-integer conversion "
-                   "funnels into - TryFrom<u64> and TryFrom<u128>: Ok(v) exactly when v < 2^BITS, else ValueTooLarge(BITS, v mod 2^BITS) (incl. the one-limb, two-limb and BITS = 0 special cases) - and const_from_u64",
-        level_note="all-widths proof only for TryFrom<u64>/<u128>/const_from_u64 (the macro-generated impls for the other 11 primitive types, the signed cases, Uint-to-primitive and Uint-to-Uint are Kani per width, 10 widths); "
+                   "funnels into - TryFrom<u64> and TryFrom<u128>: Ok(v) exactly when v < 2^BITS, else ValueTooLarge(BITS, v mod 2^BITS) (incl. the one-limb, two-limb and BITS = 0 special cases) - const_from_u64, and in the other direction TryFrom<&Uint> for u64 (the to_int! expansion) and for u128: Ok(value) exactly when it fits, else Overflow(BITS, value mod 2^64 resp. 2^128, MAX)",
+        level_note="all-widths proof only for TryFrom<u64>/<u128>/const_from_u64 and Uint -> u64/u128 (the macro-generated impls for the other primitive types, the signed cases and Uint-to-Uint are Kani per width, 10 widths); "
                    "declared rewrites in TryFrom<u128>: Self::try_from(value as u64) is named by its impl, `.and_then(|n| Err(..))` is replaced by its definition (closures over Result are outside the Verus subset); "
                    "limb slices longer than LIMBS+2 not covered; "
                    "should_panic harnesses prove that the panic is reachable and nothing else fails (plus an unreachable end-of-harness cover), not a universally quantified 'always panics'",
         technique="Kani contract harnesses (pre/postconditions on the compiled crate), complete per width; native replay of counterexamples; deductive contracts (Verus, all widths) for the u64/u128 base cases",
-        units=["core", "basics", "conv"],
+        units=["core", "basics", "bitlen", "conv"],
         kani=dict(
             features=None,
             quick=hs("c07", r"_w(0|1|60|64|65|128)$|_uint_|_must_panic$"),
